@@ -589,7 +589,7 @@ theorem C13_mapping_updates_args_keywise (rec : Node → Node → Except Err (No
           · cases h
           · rename_i cs0 _
             simp only [Except.ok.injEq, Prod.mk.injEq] at h
-            obtain ⟨cs', h1, _⟩ := propagate_kind (replaceOtherFlags of sf) sk cs0
+            obtain ⟨cs', h1, _⟩ := propagate_kind (promotedFlags (replaceOtherFlags of sf) sf) sk cs0
             exact ⟨_, cs', by rw [← h.1, h1]⟩
       · split at h
         · cases h
@@ -635,7 +635,8 @@ theorem C13_list_supplies_positional_args (rec : Node → Node → Except Err (N
     (∃ fl cs, r = .comp fl sk cs) ∧
     (eDel (.comp of .list ocs) = true → hasPrio of sf true = true →
       ArgsYield scs (.comp of .list ocs) →
-      ∃ cs, adoptAll sf sk ocs [] = .ok cs ∧ r = propagate (.comp (replaceOtherFlags of sf) sk cs)) := by
+      ∃ cs, adoptAll sf sk ocs [] = .ok cs ∧
+        r = propagate (.comp (promotedFlags (replaceOtherFlags of sf) sf) sk cs)) := by
   have hskf : sk.isFunc = true := isFunc_of_func? hsk
   have hshape : ∀ scs' : List (Key × Node), ∃ fl cs,
       (if hasPrio of sf true then propagate (.comp (replaceSelfFlags sf of) sk scs')
@@ -658,7 +659,7 @@ theorem C13_list_supplies_positional_args (rec : Node → Node → Except Err (N
           · cases h
           · rename_i cs0 _
             simp only [Except.ok.injEq, Prod.mk.injEq] at h
-            obtain ⟨cs', h1, _⟩ := propagate_kind (replaceOtherFlags of sf) sk cs0
+            obtain ⟨cs', h1, _⟩ := propagate_kind (promotedFlags (replaceOtherFlags of sf) sf) sk cs0
             exact ⟨_, cs', by rw [← h.1, h1]⟩
       · split at h
         · cases h
